@@ -14,7 +14,7 @@ from concurrent.futures import ThreadPoolExecutor
 from .common import Oracle, Suite, errname, merge
 
 GEN_UNITS = ["Backend", "FormatDigests", "CryptoDigest"]
-LEAN_TARGETS = ["PasslibVerif.Props.C03"]
+LEAN_TARGETS = ["PasslibVerif.Props.C03", "PasslibVerif.Props.C03Finalize"]
 ASSUMPTIONS = [
     "which loaders succeed on this machine (os_crypt support per format, the bcrypt package, hashlib.scrypt, $PASSLIB_BUILTIN_BCRYPT) is a parameter of the model, probed in fresh processes",
     "that two different back ends compute the same digest is established by C02/C11 theorems for the pure-Python code and by differential runs for the external code (crypt(), bcrypt package, hashlib.scrypt)",
@@ -196,7 +196,12 @@ def correspond(ctx):
     pair_oracle(ctx, o_pair)
     o_order = Oracle(ctx, "backend-order-independence")
     order_oracle(ctx, o_order)
-    return merge(s_hist, o_pair, o_order)
+    # bcrypt's capability detection (_finalize_backend_mixin) on synthetic and real mixin classes: Model.BcryptFinalize (suite `bfin`)
+    from . import c03_finalize
+
+    s_fin = Suite(ctx, "bcrypt-finalize-model")
+    c03_finalize.model_suite(ctx, s_fin)
+    return merge(s_hist, o_pair, o_order, s_fin)
 
 
 def order_oracle(ctx, o, first_only=False):
